@@ -28,6 +28,18 @@ _ALL_H = [
           "for all 256 bytes: valid_char(b) <=> b in [A-Za-z0-9-._~+/] ('=' is not in the class)"),
         H("is_valid_matches_regex_len4", "C16.K.is_valid.regex_len4", ["fn is_valid", "fn valid_char"],
           "is_valid(s) <=> s matches ^[A-Za-z0-9\\-._~+/]+=*$ for every UTF-8 string of <= 4 bytes", kind="bounded", bound="strings of <= 4 bytes", timeout=600),
+        H("is_valid_long_edge_20_first", "C16.K.is_valid.long_edge.20_first", ["fn is_valid", "fn valid_char"],
+          "is_valid(s) <=> grammar for a token of class characters with one arbitrary ASCII byte (20 bytes, free byte first)", kind="bounded", bound="20 bytes, free byte first", timeout=300),
+        H("is_valid_long_edge_20_last", "C16.K.is_valid.long_edge.20_last", ["fn is_valid", "fn valid_char"],
+          "is_valid(s) <=> grammar for a token of class characters with one arbitrary ASCII byte (20 bytes, free byte last)", kind="bounded", bound="20 bytes, free byte last", timeout=300),
+        H("is_valid_long_edge_33_middle", "C16.K.is_valid.long_edge.33_middle", ["fn is_valid", "fn valid_char"],
+          "is_valid(s) <=> grammar for a token of class characters with one arbitrary ASCII byte (33 bytes, free byte at 17)", kind="bounded", bound="33 bytes, free byte at 17", timeout=300),
+        H("is_valid_long_edge_33_last", "C16.K.is_valid.long_edge.33_last", ["fn is_valid", "fn valid_char"],
+          "is_valid(s) <=> grammar for a token of class characters with one arbitrary ASCII byte (33 bytes, free byte last)", kind="bounded", bound="33 bytes, free byte last", timeout=300),
+        H("is_valid_long_edge_40_last", "C16.K.is_valid.long_edge.40_last", ["fn is_valid", "fn valid_char"],
+          "is_valid(s) <=> grammar for a token of class characters with one arbitrary ASCII byte (40 bytes, free byte last)", kind="bounded", bound="40 bytes, free byte last", timeout=300),
+        H("is_valid_long_one_free_byte", "C16.K.is_valid.long_one_free_byte", ["fn is_valid", "fn valid_char"],
+          "is_valid(s) <=> s matches the grammar for 40-byte strings 'a…a' with 0..6 trailing '=' and one arbitrary ASCII byte at an arbitrary position", kind="bounded", bound="40-byte strings with one free ASCII byte", timeout=600),
         H("is_valid_matches_regex_len5", "C16.K.is_valid.regex_len5", ["fn is_valid", "fn valid_char"],
           "same for <= 5 bytes", kind="bounded", bound="strings of <= 5 bytes", tier="thorough", timeout=3000),
         H("from_str_new_from_plain_len3", "C16.K.entry.from_str_new_from_plain", ["FromStr for BearerToken::from_str", "BearerToken::new", "BearerToken::as_str", "BearerToken::into_string", "conjure-object/src/plain.rs::macro as_from_str"],
@@ -49,7 +61,7 @@ def _variant(drop):
         return s
     return f
 _TABLE = {"valid_char_table"}
-_ISVALID = {"is_valid_matches_regex_len4", "is_valid_matches_regex_len5", "literals"}
+_ISVALID = {"is_valid_long_edge_20_first", "is_valid_long_edge_20_last", "is_valid_long_edge_33_middle", "is_valid_long_edge_33_last", "is_valid_long_edge_40_last", "is_valid_matches_regex_len4", "is_valid_matches_regex_len5", "is_valid_long_one_free_byte", "literals"}
 # three units so that a refactoring of the private helpers (valid_char / is_valid signatures) can only make the
 # units that name them undecided; the entry-path harnesses use the public API only
 KANI_UNITS = [
@@ -62,6 +74,8 @@ KANI_UNITS = [
 ]
 
 MUTANTS = [
+    dict(name="is_valid_scans_only_the_first_16_bytes", file=B, **{"from": "!stripped.as_bytes().iter().cloned().all(valid_char)", "to": "!stripped.as_bytes().iter().take(16).cloned().all(valid_char)"},
+         expect=["C16.K.is_valid.long_one_free_byte"]),
     dict(name="table_accepts_equals", file=B, **{"from": "       0,    0,    0,    0,    0, b'A', b'B', b'C', b'D', b'E', //  6x", "to": "       0, b'=',    0,    0,    0, b'A', b'B', b'C', b'D', b'E', //  6x"},
          expect=["C16.K.valid_char.table"]),
     dict(name="table_drops_tilde", file=B, **{"from": "b'x', b'y', b'z',    0,    0,    0, b'~',", "to": "b'x', b'y', b'z',    0,    0,    0,    0,"},
